@@ -1256,6 +1256,10 @@ func runC03(cfg Config, r *Result) {
 		add(mutCase{genDeepNest(rng, cfg.N(300, 600)), "deep-nest"})
 	}
 	flush()
+	// the statement-parser model (coq/Parser.v) against parser.Parse: accept/reject and all error positions (harness/c03parse.go)
+	rule := r.Rule
+	runC03parse(cfg, r)
+	r.Rule = rule + "; PARSER MODEL: " + r.Rule
 	c03DeepNestingProbe(cfg, r)
 	if fatalConfirmed >= 3 {
 		r.Note("parser oracle cut short after %d confirmed hangs / process deaths (remaining inputs counted as parse:skipped)", fatalConfirmed)
@@ -1420,6 +1424,12 @@ func c03Replay(cfg Config, r *Result) {
 	}
 	src, ok := inputFromReplay(v.Input)
 	if !ok {
+		if m, isMap := v.Input.(map[string]any); isMap {
+			if _, has := m["source"].(string); has { // a difference found by the parser-model correspondence
+				runC03parse(cfg, r)
+				return
+			}
+		}
 		r.Note("replay file carries no src_hex input; nothing to re-run")
 		return
 	}
